@@ -426,7 +426,7 @@ fn brief(a: &Answer) -> String {
 }
 
 /// Enumerate all schedules of `p` with at most `bound` preemptions.
-pub fn explore(ctx: &mut Ctx, p: &Program, bound: usize, max_schedules: u64) -> Stats {
+pub fn explore(ctx: &mut Ctx, p: &Program, bound: usize, max_schedules: u64, k: usize, n: usize) -> Stats {
   let want = expected(p);
   let mut st = Stats::default();
   // determinism: the default schedule twice, identical traces
@@ -436,29 +436,38 @@ pub fn explore(ctx: &mut Ctx, p: &Program, bound: usize, max_schedules: u64) -> 
     ctx.notes.push(format!("MACHINERY: program {} is not deterministic under the scheduler: {:?} vs {:?}", p.name, a.trace, b.trace));
     return st;
   }
-  fn rec(ctx: &mut Ctx, p: &Program, want: &[Vec<Answer>], prefix: Vec<usize>, bound: usize, st: &mut Stats, max: u64) {
+  #[allow(clippy::too_many_arguments)]
+  fn rec(ctx: &mut Ctx, p: &Program, want: &[Vec<Answer>], prefix: Vec<usize>, bound: usize, st: &mut Stats, max: u64, stripe: Option<(usize, usize)>) {
     if st.schedules >= max {
       st.capped = true;
       return;
     }
     let ex = run_schedule(p, &prefix);
-    st.schedules += 1;
-    *st.by_preemptions.entry(ex.preemptions).or_insert(0) += 1;
-    st.decisions += ex.decisions.len() as u64;
-    st.max_decisions = st.max_decisions.max(ex.decisions.len());
-    st.distinct_traces.insert(h64(&ex.trace));
-    st.distinct_outcomes.insert(answers_digest(&ex.answers));
     let choices: Vec<usize> = ex.decisions.iter().map(|d| d.chosen).collect();
-    ctx.evaluations += 1;
-    ctx.transitions += ex.decisions.len() as u64;
-    if ex.preemptions >= 1 {
-      ctx.nontrivial += 1;
+    // the root schedule is run by every worker (to find the subtrees) but counted once
+    let counted = match stripe {
+      Some((k, _)) => k == 0,
+      None => true,
+    };
+    if counted {
+      st.schedules += 1;
+      *st.by_preemptions.entry(ex.preemptions).or_insert(0) += 1;
+      st.decisions += ex.decisions.len() as u64;
+      st.max_decisions = st.max_decisions.max(ex.decisions.len());
+      st.distinct_traces.insert(h64(&ex.trace));
+      st.distinct_outcomes.insert(answers_digest(&ex.answers));
+      ctx.evaluations += 1;
+      ctx.transitions += ex.decisions.len() as u64;
+      if ex.preemptions >= 1 {
+        ctx.nontrivial += 1;
+      }
+      check_execution(ctx, p, want, &ex, &choices);
+      ctx.traces_validated += 1;
     }
-    check_execution(ctx, p, want, &ex, &choices);
-    ctx.traces_validated += 1;
     if ex.stuck.is_some() {
       return;
     }
+    let mut subtree = 0usize;
     let mut pre = 0usize;
     for i in 0..ex.decisions.len() {
       let d = &ex.decisions[i];
@@ -470,7 +479,13 @@ pub fn explore(ctx: &mut Ctx, p: &Program, bound: usize, max_schedules: u64) -> 
           }
           let mut np: Vec<usize> = choices[..i].to_vec();
           np.push(alt);
-          rec(ctx, p, want, np, bound, st, max);
+          subtree += 1;
+          if let Some((k, n)) = stripe {
+            if subtree % n != k {
+              continue;
+            }
+          }
+          rec(ctx, p, want, np, bound, st, max, None);
         }
       }
       if d.cur_enabled && d.chosen != 0 {
@@ -478,7 +493,7 @@ pub fn explore(ctx: &mut Ctx, p: &Program, bound: usize, max_schedules: u64) -> 
       }
     }
   }
-  rec(ctx, p, &want, vec![], bound, &mut st, max_schedules);
+  rec(ctx, p, &want, vec![], bound, &mut st, max_schedules, Some((k, n)));
   st
 }
 
@@ -602,44 +617,40 @@ pub fn bound_for(tier: &str, p: &Program) -> usize {
       3
     }
   } else if p.threads.len() == 2 {
-    4
-  } else {
     3
+  } else {
+    2
   }
 }
 
 pub fn worker(tier: &str, k: usize, n: usize, ctx: &mut Ctx) {
   let progs = programs(tier);
   let cap: u64 = if tier == "thorough" { 3_000_000 } else { 150_000 };
-  for (i, p) in progs.iter().enumerate() {
-    if i % n != k {
-      continue;
-    }
+  for p in progs.iter() {
     crate::set_current_desc(json!({"program": p.name}).to_string());
     let bound = bound_for(tier, p);
-    let st = explore(ctx, p, bound, cap);
+    // the subtrees below the default schedule are striped over the workers
+    let st = explore(ctx, p, bound, cap, k, n);
     ctx.states += st.decisions;
     for h in &st.distinct_outcomes {
       ctx.outcomes.insert(*h);
     }
+    let key = |what: &str| format!("{} | {what}", p.name);
+    ctx.add(&key("schedules"), st.schedules);
     ctx.add("schedules", st.schedules);
-    ctx.add("distinct_interleavings", st.distinct_traces.len() as u64);
-    ctx.notes.push(format!(
-      "{}: threads={} preemption_bound_completed={} schedules={} by_preemptions={:?} distinct_interleavings={} distinct_outcomes={} max_decisions={}{}",
-      p.name,
-      p.threads.len(),
-      if st.capped { "none (schedule cap hit)".to_string() } else { bound.to_string() },
-      st.schedules,
-      st.by_preemptions,
-      st.distinct_traces.len(),
-      st.distinct_outcomes.len(),
-      st.max_decisions,
-      if st.capped { " CAPPED" } else { "" }
-    ));
-    if st.capped {
-      ctx.notes.push(format!("MACHINERY: program {} hit the schedule cap {cap}", p.name));
+    for (pre, c) in &st.by_preemptions {
+      ctx.add(&key(&format!("schedules with {pre} preemptions")), *c);
     }
-    if ctx.samples.len() < 3 {
+    ctx.add(&key("distinct interleavings"), st.distinct_traces.len() as u64);
+    ctx.add("distinct_interleavings", st.distinct_traces.len() as u64);
+    if k == 0 {
+      ctx.add(&key("threads"), p.threads.len() as u64);
+      ctx.add(&key("preemption bound completed"), bound as u64);
+    }
+    if st.capped {
+      ctx.notes.push(format!("MACHINERY: program {} hit the schedule cap {cap} in worker {k}", p.name));
+    }
+    if k == 0 && ctx.samples.len() < 3 {
       let ex = run_schedule(p, &[]);
       ctx.samples.push(json!({"program": p.name, "threads": serde_json::to_value(&p.threads).unwrap(), "default_schedule_trace": ex.trace.iter().map(|(t, s)| format!("T{t}:{s}")).collect::<Vec<_>>()}));
     }
@@ -651,7 +662,7 @@ pub fn bounds(tier: &str) -> Value {
   json!({
     "engine": "E5 sched: real threads run one at a time, yielding at guarded hook points before every shared-state access; enabledness from probes of the real DashMap locks and OnceLock begin/end events; DFS over all schedules with a preemption bound; every schedule runs to completion",
     "programs": progs.iter().map(|p| json!({"name": p.name, "threads": p.threads.len(), "ops": p.threads.iter().map(|t| t.len()).sum::<usize>(), "preemption_bound": bound_for(tier, p)})).collect::<Vec<_>>(),
-    "per_program_results": "see coverage.notes",
+    "per_program_results": "see coverage.counters: '<program> | schedules', '... with k preemptions', 'distinct interleavings', 'preemption bound completed'",
     "not_explored": "interleavings finer than the hook points; weak-memory reorderings (the code uses SeqCst atomics and locks only)",
   })
 }
